@@ -21,6 +21,22 @@ let picos_of s default =
 
 type parsed = { cfg : cfg; threads : int; init : n; hist : raw list list }
 
+let quad_of_list = function
+  | [a; b; c; d] -> { q_bytes = a; q_chars = b; q_cycles = c; q_items = d }
+  | _ -> failwith "quad"
+
+(* "a/b/c/d" per kind; a single number is the items total *)
+let ctotals s =
+  match String.split_on_char '/' s with
+  | [x] -> { q_bytes = N0; q_chars = N0; q_cycles = N0; q_items = n_of_string x }
+  | l -> quad_of_list (List.map n_of_string l)
+
+let ic_mask s =
+  match s with
+  | "0" -> qconst false
+  | "1" -> { (qconst false) with q_items = true }
+  | _ -> quad_of_list (List.init 4 (fun i -> s.[i] = '1'))
+
 let parse_case (case : string) (histpart : string) : parsed res =
   let t = kv case in
   let h = kv histpart in
@@ -39,17 +55,17 @@ let parse_case (case : string) (histpart : string) : parsed res =
       c_freq = n_of_string (get t "f" "1000000000000");
       c_prec = n_of_string (get t "p" "1");
       c_oh = oh;
-      c_input_counts = (get t "ic" "0" = "1") } in
+      c_input_counts = ic_mask (get t "ic" "0") } in
     let init = match get h "init" "-" with "-" -> N0 | s -> n_of_string s in
     let hist = List.map (fun round ->
         List.map (fun r ->
             match String.split_on_char ':' r with
-            | [s; e; ct] -> { r_start = n_of_string s; r_end = n_of_string e; r_alloc = ai_zero; r_ctotal = n_of_string ct }
+            | [s; e; ct] -> { r_start = n_of_string s; r_end = n_of_string e; r_alloc = ai_zero; r_ctotal = ctotals ct }
             | [s; e; ct; al] ->
               (* `al` allocations of a Box<u64>, each freed again within the timed section *)
               let a = n_of_string al in
               let bytes = N.mul a (n_of_small 8) in
-              { r_start = n_of_string s; r_end = n_of_string e; r_ctotal = n_of_string ct;
+              { r_start = n_of_string s; r_end = n_of_string e; r_ctotal = ctotals ct;
                 r_alloc = { ai_zero with ai_alloc_c = a; ai_alloc_s = bytes; ai_dealloc_c = a; ai_dealloc_s = bytes } }
             | _ -> failwith "raw") (split_on ',' round))
         (split_on ';' (get h "h" "")) in
@@ -74,7 +90,7 @@ let seen_line (st : state) (s : seen) =
   Printf.sprintf "K=%d sizes=%s calls=%s rag=0 fs=%s dur=%s ai=%s cnt=%s ss=%s si=%s"
     (List.length s.o_sizes) (list_s string_of_n s.o_sizes) (list_s string_of_n s.o_calls)
     (string_of_n s.o_final_size) (list_s string_of_n s.o_samples) (list_s alloc_s (sorted_allocs st))
-    (list_s string_of_n s.o_counts) (string_of_n s.o_stat_samples) (string_of_n s.o_stat_iters)
+    (String.concat "/" (List.map (fun k -> list_s string_of_n (qget k s.o_counts)) all_kinds)) (string_of_n s.o_stat_samples) (string_of_n s.o_stat_iters)
 
 let model line =
   let (case, histpart) = split_bar line in
@@ -101,7 +117,10 @@ let parse_seen (obs : string) : seen option =
       Some { o_done = true; o_sizes = list_n (get t "sizes" ""); o_calls = list_n (get t "calls" "");
              o_final_size = fs; o_samples = list_n (get t "dur" "");
              o_alloc_keys = List.map (fun e -> n_of_string (List.hd (String.split_on_char ':' e))) (split_on ',' (get t "ai" ""));
-             o_counts = list_n (get t "cnt" ""); o_stat_samples = ss; o_stat_iters = si }
+             o_counts = (match String.split_on_char '/' (get t "cnt" "///") with
+                 | [_; _; _; _] as l -> quad_of_list (List.map list_n l)
+                 | [x] -> { (qconst []) with q_items = list_n x }
+                 | _ -> failwith "cnt"); o_stat_samples = ss; o_stat_iters = si }
     | _ -> None
 
 let check which line =
@@ -117,9 +136,60 @@ let check which line =
      | "c19" -> verdict (c19_sb p.cfg p.init p.hist s) "C19:tuning-sequence/discard-rule"
      | _ -> failwith "check")
 
+(* ---- C03 end to end: "... mode=b|t n=<n|-> s=<s> threads=a,b,c" ---- *)
+let e2e_cfg t =
+  { c_test = (get t "mode" "b" = "t"); c_count = opt_n (get t "n" "-"); c_size = opt_n (get t "s" "-");
+    c_min = N0; c_max = u128_max; c_skip = false; c_freq = n_of_small 1; c_prec = n_of_small 1;
+    c_oh = { oh_loop = N0; oh_alloc = N0; oh_dealloc = N0; oh_realloc = N0 }; c_input_counts = qconst false }
+
+let e2e_model line =
+  let t = kv line in
+  let cfg = e2e_cfg t in
+  let rows = List.map (fun ts ->
+      let th = int_of_string ts in
+      (* no time budget is set, so the timestamps do not matter: more rounds than can be needed *)
+      let n = (match cfg.c_count with Some x -> int_of_n x | None -> 100) in
+      let round = List.init th (fun _ -> { r_start = N0; r_end = n_of_small 1; r_alloc = ai_zero; r_ctotal = qconst N0 }) in
+      let hist = List.init (n / th + 3) (fun _ -> round) in
+      match bench_loop cfg N0 hist with
+      | Panic e -> "t=" ^ ts ^ " panic " ^ string_of_panic e
+      | Ok out ->
+        match seen_of_outcome (nat_of_int th) out with
+        | Panic e -> "t=" ^ ts ^ " panic " ^ string_of_panic e
+        | Ok s ->
+          if not (out_done out) then "t=" ^ ts ^ " starved"
+          else if cfg.c_test then Printf.sprintf "t=%s samples=- iters=- calls=%s" ts (list_s string_of_n s.o_calls)
+          else Printf.sprintf "t=%s samples=%s iters=%s calls=%s" ts (string_of_n s.o_stat_samples)
+              (string_of_n s.o_stat_iters) (list_s string_of_n s.o_calls))
+      (split_on ',' (get t "threads" "1")) in
+  String.concat ";" rows
+
+let e2e_check line =
+  let (case, impl) = split_sb line in
+  let t = kv case in
+  let cfg = e2e_cfg t in
+  let s = match cfg.c_size with Some s -> s | None -> failwith "e2e needs an explicit size" in
+  let rows = split_on ';' impl in
+  let want = split_on ',' (get t "threads" "1") in
+  if List.length rows <> List.length want then verdict false ("rows:" ^ impl)
+  else
+    let bad = List.filter_map (fun (ts, row) ->
+        let r = kv row in
+        let num k = match get r k "-" with "-" -> if cfg.c_test then Some N0 else None | x -> (try Some (n_of_string x) with _ -> None) in
+        match get r "t" "?" = ts, num "samples", num "iters" with
+        | true, Some sa, Some it ->
+          let calls = (try Some (list_n (get r "calls" "")) with _ -> None) in
+          (match calls with
+           | Some cl when c03_e2e_sb cfg.c_count s (n_of_string ts) cfg.c_test sa it cl -> None
+           | _ -> Some ("t=" ^ ts))
+        | _ -> Some ("t=" ^ ts ^ ":unreadable")) (List.combine want rows) in
+    verdict (bad = []) ("C03:reported-samples/iters/calls-wrong-at-" ^ String.concat "," bad)
+
 let dispatch mode line =
   match mode with
   | "c03" | "c04" | "c19" | "loop" -> model line
+  | "c03e2e" -> e2e_model line
+  | "c03e2e.sb" -> e2e_check line
   | "c03.sb" -> check "c03" line
   | "c04.sb" -> check "c04" line
   | "c19.sb" -> check "c19" line
